@@ -1464,8 +1464,8 @@ func (p *showPlan) Execute(ctx context.Context) (*table.Table, error) {
 			},
 		})
 	}
-	if <-errs != nil {
-		return nil, err
+	if gErr := <-errs; gErr != nil {
+		return nil, gErr
 	}
 	return t, nil
 }
